@@ -45,6 +45,9 @@ func c11Mix(r gen.R, n int, serials []uint32) []*c11Reply {
 			// the controller whose earlier datagram was malformed answers properly now: its entry is not hidden by the earlier junk
 			serial = malformedSerials[r.Pick(len(malformedSerials))]
 		}
+		if r.Pick(40) == 0 {
+			serial = 0 // "all field values": a reply that reports serial number 0 is a well-formed reply like any other
+		}
 		rep := &c11Reply{class: "valid", serial: serial}
 		rep.data = r.Reply(op, 0x17, serial, rm.Vals{}, true)
 		switch k := r.Pick(16); {
